@@ -256,6 +256,9 @@ func c08Case(t *rapid.T) {
 			offs = append(offs, 0, -o)
 		}
 		for _, o2 := range offs {
+			if math.Abs(o2-o) <= 1e-6*math.Max(1, math.Max(math.Abs(o), math.Abs(o2))) {
+				continue // not a different mapping: offsets within the tolerance of Equals (tiny engineered offsets vs 0)
+			}
 			if om, err := (gen.MapSpec{Kind: gen.KindOf(sc.m), Gamma: g, Offset: o2}).Build(); err == nil {
 				others = append(others, om)
 				cl.label("fault:mapping-mismatch-offset-only")
